@@ -115,18 +115,8 @@ pub fn check_with(case: &ProgCase, info: &mut CaseInfo, cap: u64, batch: bool) -
     Ok(())
 }
 
-thread_local! { static CAP: std::cell::Cell<u64> = std::cell::Cell::new(u64::MAX); }
-fn cap() -> u64 {
-    CAP.with(|c| {
-        if c.get() == u64::MAX {
-            c.set(c03::measure_row_cap());
-        }
-        c.get()
-    })
-}
-
 pub fn check(case: &ProgCase, info: &mut CaseInfo) -> Result<(), String> {
-    check_with(case, info, cap(), cfg!(feature = "batch"))
+    check_with(case, info, c03::cap(case.cfg.model.bits()), cfg!(feature = "batch"))
 }
 
 fn strategy_streams() -> BoxedStrategy<ProgCase> {
@@ -156,9 +146,9 @@ fn sig(c: &ProgCase, reason: &str) -> String {
 
 pub fn run(ctx: &Ctx) -> Report {
     let mut rep = Report::new("C20", "exploration");
-    let rc = c03::measure_row_cap();
+    let rc = c03::measure_row_cap_bits(16).min(c03::measure_row_cap_bits(18));
     rep.assumptions = vec![
-        format!("row capacity measured from one long run: {} (must be >= 2 with batching)", rc),
+        format!("row capacity measured from one long run per colour type: {} / {} pixels (must be >= 2 with batching)", c03::measure_row_cap_bits(16), c03::measure_row_cap_bits(18)),
         "an out-of-bounds pixel inside a run is counted as splitting it (the weaker, sound reading)".into(),
         "per window set-up the SPI transport needs 6 transactions for the three commands; these are allowed on top of floor(b/usable)+1 per burst".into(),
     ];
@@ -181,15 +171,15 @@ pub fn run(ctx: &Ctx) -> Report {
         &format!("streams[{}]", ctx.variant),
         "C03 streams decomposed by the harness into maximal left-to-right runs; RAMWR count <= sum ceil(len/cap) with batching, <= in-bounds pixels always; SPI transactions per burst bounded; non-trivial = a run longer than cap and >= 2 runs",
     );
-    run_generated(&mut sec, ctx.seed, ctx.cases(30_000, 800_000), ctx.workers, strategy_streams, check, sig);
+    run_generated(&mut sec, ctx.seed, ctx.cases(100_000, 2_500_000), ctx.workers, strategy_streams, check, sig);
     rep.sections.push(sec);
 
     let mut sec = Section::new(
         &format!("fills[{}]", ctx.variant),
         "C01 and C02 programs: fill_solid / fill_contiguous / clear use exactly one window set-up when the intersection is non-empty, at most one otherwise; SPI transaction bound",
     );
-    run_generated(&mut sec, ctx.seed ^ 20, ctx.cases(15_000, 400_000), ctx.workers, || c01::strategy(gen::ConfigMenu::all_transports(), 6), check, sig);
-    run_generated(&mut sec, ctx.seed ^ 21, ctx.cases(15_000, 400_000), ctx.workers, || c02::strategy(gen::ConfigMenu::all_transports(), 4), check, sig);
+    run_generated(&mut sec, ctx.seed ^ 20, ctx.cases(50_000, 1_200_000), ctx.workers, || c01::strategy(gen::ConfigMenu::all_transports(), 6), check, sig);
+    run_generated(&mut sec, ctx.seed ^ 21, ctx.cases(50_000, 1_200_000), ctx.workers, || c02::strategy(gen::ConfigMenu::all_transports(), 4), check, sig);
     rep.sections.push(sec);
     rep
 }
